@@ -445,6 +445,7 @@ func runConcurrentOnce(m *mon.M, cfg *RunCfg, salt int64) {
 		m.NT("run|" + th)
 	}
 	m.SetAdd("gomaxprocs", fmt.Sprint(cfg.MaxProcs))
+	m.SetAdd("distinct-hook-interleavings", th)
 	m.Note("hook_events", int64(ntrace))
 	m.Note("concurrent_runs", 1)
 	m.Note("requests_served_concurrently", served)
